@@ -142,6 +142,7 @@ type Net struct {
 	// one is not delivered.
 	FreezeAt int
 	Frozen   bool
+	OnFreeze func() // called once when the freeze happens
 	// CancelAt > 0: call Cancel when exchange CancelAt is delivered.
 	CancelAt int
 	Cancel   func()
@@ -300,8 +301,11 @@ func (n *Net) RoundTrip(req *http.Request) (*http.Response, error) {
 		simrt.Event("%s err=%v", x, err)
 		return nil, err
 	}
-	if n.FreezeAt > 0 && x.Seq >= n.FreezeAt {
+	if n.FreezeAt > 0 && x.Seq >= n.FreezeAt && !n.Frozen {
 		n.Frozen = true
+		if n.OnFreeze != nil {
+			n.OnFreeze()
+		}
 	}
 	if n.Frozen {
 		x.Fault = "frozen"
